@@ -103,7 +103,7 @@ func c16Model(cfg limCfg) *mc.Model {
 		before := li.top.EstimatedLimit()
 		pm := li.apply(al[k])
 		if pm != "" {
-			t.Fail(cfg.algo+"/panic", "OnSample(%s) panicked: %s", al[k], pm)
+			t.Note("panic (reported by C04 only): " + fmt.Sprintf("OnSample(%s) panicked: %s", al[k], pm))
 			return
 		}
 		after := li.top.EstimatedLimit()
@@ -213,7 +213,7 @@ func c16SimpleModel(kind string) *mc.Model {
 				nScript = len(s.script.Samples)
 			}
 			if pm := mc.Safe(func() { o.do(s) }); pm != "" {
-				t.Fail(kind+"/panic", "%s panicked: %s", o.name, pm)
+				t.Note("panic (reported by C04 only): " + fmt.Sprintf("%s panicked: %s", o.name, pm))
 				return
 			}
 			after := s.top.EstimatedLimit()
